@@ -130,7 +130,7 @@ func stageMatrix() {
 	if err != nil {
 		fatal("%v", err)
 	}
-	w := &gal.Writer{Dir: *outDir, Require: "From Apko Require Import Corr.C01.", Type: "build_case", Check: "check_build", Shard: 200}
+	w := &gal.Writer{Dir: *outDir, Require: "From Apko Require Import Corr.C01.", Type: "build_case", Check: "check_build", Shard: 80}
 	cfgs := mainConfigs()
 	reps := 1
 	if *tier != "thorough" {
